@@ -21,6 +21,8 @@ mod common;
 /// Functional core testable separately from I/O
 mod core;
 mod dht;
+#[cfg(mainline_verif)]
+pub mod verif;
 
 #[cfg(feature = "async")]
 pub use dht::async_dht;
